@@ -17,6 +17,7 @@ MIN_OBLIGATIONS = 50
 
 
 def check(ctx):
+    tablefmt.check_capi_comparator(ctx)
     from . import tablefmt as _tf3
     _tf3.check_policy_wrapping(ctx)   # filters are built and probed over user keys
     witness.run(ctx, "C16")
